@@ -30,13 +30,17 @@ Inductive case :=
            (o : option (list oq))
   | CPoly (degree : Z) (ic : bool) (ys : list oq) (fh : list Z) (o : option (list oq))
   (* dense = direct statsmodels forecast for positions n-1+fh[0] .. n-1+fh[-1] *)
-  | CAdapter (n : Z) (dense : list oq) (fh : list Z) (o : option (list oq)).
+  | CAdapter (n : Z) (dense : list oq) (fh : list Z) (o : option (list oq))
+  (* fit on n0 observations, update(update_params=False) with k more; dense = forecast of the model
+     fitted on the first n0 observations for positions n0+k-1+fh[0] .. n0+k-1+fh[-1] *)
+  | CAdapterUpd (n0 k : Z) (dense : list oq) (fh : list Z) (o : option (list oq)).
 
 Definition check (c : case) : bool :=
   match c with
   | CNaive s sp wlo ys fh o => agree (naive_predict s sp wlo ys fh) o
   | CPoly d ic ys fh o => agree (poly_predict d ic ys fh) o
   | CAdapter n dense fh o => agree (adapter_predict n dense fh) o
+  | CAdapterUpd n0 k dense fh o => agree (adapter_predict_at n0 k dense fh) o
   end.
 
 Fixpoint mism (cs : list (Z * case)) : list Z :=
